@@ -7,6 +7,7 @@ import (
 	"os"
 	"os/exec"
 	"path/filepath"
+	"runtime/pprof"
 	"sync"
 	"sync/atomic"
 	"time"
@@ -140,7 +141,14 @@ func poolChild(a Args) {
 				return tierJSON(out)
 			}
 			nextBlock := 1
-			blk := func() []int { b := []int{nextBlock}; nextBlock++; return b }
+			blk := func() []int {
+				b := []int{nextBlock}
+				nextBlock++
+				if nextBlock > 200 {
+					nextBlock = 1 // a world has 256 distinguishable blocks (unique first byte)
+				}
+				return b
+			}
 			item := func(miss bool, data []byte, flags uint32) []interface{} {
 				if miss {
 					return []interface{}{"miss"}
@@ -299,6 +307,8 @@ wait:
 	rec.Emit(map[string]interface{}{"ev": "summary", "hung": hung, "cuts": cuts, "after": after, "conns_accepted": atomic.LoadInt64(&st.Accepted), "secs": time.Since(t0).Seconds()})
 	mu.Unlock()
 	if hung {
+		// where everybody is: the evidence of the hang
+		pprof.Lookup("goroutine").WriteTo(os.Stdout, 1)
 		os.Exit(3)
 	}
 }
